@@ -30,7 +30,9 @@ EXPLANATION = (
     'writes for a text region (templates from the source, representative multi-word value) are lexed by the reader\'s own '
     'regex_line / regex_meta / regex_length (stdlib re on the source patterns) back to one region, no stray parameters, the same '
     'label/text, and the label is bound to the region meta; two probes (label with a comma, text with "=") decide the quoting '
-    'discipline. Not decided: numeric formatting per fmt/radunit, sexagesimal lexing.')
+    'discipline; (R3 also runs with radunit=arcsec/arcmin, where sizes are labelled with the quote units); (R10) every key the '
+    'reader splits into a list (taken from its source) is written by the writer in the bracket form that the metadata regex and the '
+    'split/strip chain read back as the same list. Not decided: numeric formatting per fmt, sexagesimal lexing.')
 TRUSTED = ['the reader\'s regexes, applied to the constant line template, return the bracketed pairs / trailing lengths in order '
            '(stdlib re on constants from the source)', 'Quantity.to(unit).value', 'frame_transform_graph.get_names() maps astropy '
            'frame names to themselves']
@@ -99,7 +101,7 @@ def _classes(model):
     return out
 
 
-def eval_writer(model, ci, coordsys, meta=None, visual=None):
+def eval_writer(model, ci, coordsys, meta=None, visual=None, radunit=None):
     from ..vg import reset_marks
     reset_marks()
     ser = model.registered('serialize', 'crtf')
@@ -115,7 +117,10 @@ def eval_writer(model, ci, coordsys, meta=None, visual=None):
             q = mark_quantity(sp.Symbol(f'region.{p}', positive=(k == 'PositiveScalarAngle'), real=True))
             PLAIN_QUANTITY.add(q)
             s.fields[p] = q
-    out = ev.run(ser, [Tup((s,), 'list')], {'coordsys': Const(coordsys)})
+    kw = {'coordsys': Const(coordsys)}
+    if radunit is not None:
+        kw['radunit'] = Const(radunit)
+    out = ev.run(ser, [Tup((s,), 'list')], kw)
     return ser, ev, out
 
 
@@ -232,7 +237,7 @@ def eval_reader(model, template, token, include='+', type_='reg', global_meta=No
             if p == rx['regex_length']:
                 return Tup(tuple(conv(c) for c in lens), 'list')
             if p == rx['regex_meta']:
-                return Tup(tuple(Tup((Const(k), Const(v), Const(''), Const(''))) for k, v in meta_pairs), 'list')
+                return Tup(tuple(Tup(tuple(Const(x) for x in (tuple(p_) + ('', ''))[:4])) for p_ in meta_pairs), 'list')
         return NotImplemented
 
     ci = model.cls('_CRTFRegionParser')
@@ -283,10 +288,10 @@ def r3(ctx):
     m = ctx.model
     for cname, fields in SKY_SIZE_FIELDS.items():
         ci = m.cls(cname)
-        for coordsys in ('fk5', 'image'):
+        for coordsys, radunit in (('fk5', None), ('image', None), ('fk5', 'arcsec'), ('fk5', 'arcmin')):
             wci = ci if coordsys == 'fk5' else m.cls(cname.replace('SkyRegion', 'PixelRegion'))
-            construct = f'{wci.name} [{coordsys}]'
-            ser, ev, out = eval_writer(m, wci, coordsys)
+            construct = f'{wci.name} [{coordsys}]' + (f' radunit={radunit}' if radunit else '')
+            ser, ev, out = eval_writer(m, wci, coordsys, radunit=radunit)
             fc = _format_call(out)
             ctx.need(fc is not None, construct, 'no line template reached')
             template = fc.args[0].v
@@ -313,11 +318,12 @@ def r3(ctx):
                     if not is_num(warg):
                         raise AnalysisError('C11.R3', construct, f'written value for slot {j} not numeric: {show(warg, 100)}')
                     # the label after the slot in the template
-                    lab = re.search(r'\{%d(?::[^}]*)?\}(\w*)' % j, template).group(1)
+                    lab = re.search(r'\{%d(?::[^}]*)?\}(\w+|"|\'|)' % j, template).group(1)
                     if coordsys == 'image' and f != 'angle':
                         want = base            # pixel sizes are plain numbers
                     else:
-                        unit = {'deg': DEG, 'rad': ANG, 'arcsec': DEG / 3600, 'arcmin': DEG / 60}.get(lab)
+                        unit = {'deg': DEG, 'rad': ANG, 'arcsec': DEG / 3600, 'arcmin': DEG / 60, '"': DEG / 3600,
+                                "'": DEG / 60}.get(lab)
                         if unit is None:
                             probs.append(f'{f}: unknown unit label "{lab}"')
                             continue
@@ -611,14 +617,76 @@ def r9(ctx):
                 'comma or quote character', 'regions/io/crtf/read.py')
 
 
+def r10(ctx):
+    """list-valued metadata: every key the reader splits into a list is written in the bracket form it reads back."""
+    m = ctx.model
+    rx = _line_regexes(m)
+    rp = m.cls('_CRTFRegionParser')
+    cm = rp.methods.get('convert_meta')
+    ctx.need(cm is not None, '_CRTFRegionParser.convert_meta', 'not found')
+    list_keys = None
+    for n in ast.walk(cm.node):
+        if isinstance(n, ast.Compare) and isinstance(n.ops[0], ast.In) and isinstance(n.comparators[0], ast.Tuple) \
+                and isinstance(n.left, ast.Name):
+            vals = [e.value for e in n.comparators[0].elts if isinstance(e, ast.Constant)]
+            if vals and all(isinstance(v, str) for v in vals) and 'corr' in vals:
+                list_keys = vals
+    ctx.need(list_keys, cm.qualname, 'list-valued key tuple not found')
+    visual_keys = set(class_tables(m, 'RegionVisual').get('valid_keys', ()) or ())
+    circ = m.cls('CircleSkyRegion')
+    f, templates = _template_tokens(m)
+    A, B = Obj('str', {}, 'A'), Obj('str', {}, 'B')
+    ph = {'A': 'a1', 'B': 'b2'}
+    for key in list_keys:
+        where = 'visual' if key in visual_keys else 'meta'
+        kw = {where: {key: Tup((A, B), 'list')}}
+        kw.setdefault('meta', {})
+        ser, ev, out = eval_writer(m, circ, 'fk5', **kw)
+        meta_term = None
+        for pc, v in out.returns:
+            for x in walk_terms(v):
+                if isinstance(x, App) and x.name == 'apply' and isinstance(x.args[0], App) and x.args[0].name == 'attr:strip' \
+                        and key in show(x.args[0].args[0], 2000):
+                    meta_term = x.args[0].args[0]
+        construct = f'list key {key}'
+        if meta_term is None:
+            ctx.bad(construct, 'not-written', f'a region whose {where} has {key}=[...] is written without it', ser.loc())
+            continue
+        meta_str = _render(meta_term, ph)
+        pars = rx['regex_meta'].findall(meta_str.strip().lstrip(',').strip() + ',')
+        pr, sh, reg, _ = eval_reader(m, templates['circle'][1], 'circle', meta_pairs=pars)
+        got = None
+        if reg is not None:
+            for which in ('meta', 'visual'):
+                d = reg.fields.get(which)
+                if isinstance(d, App) and d.args and isinstance(d.args[0], DictV):
+                    d = d.args[0]
+                if isinstance(d, DictV) and key in d.keys():
+                    got = d.get(key)
+        items = None
+        if isinstance(got, Tup):
+            items = []
+            for i in got.items:
+                while isinstance(i, App) and i.args:
+                    i = i.args[0]
+                items.append(i.v if isinstance(i, Const) else None)
+        if items == [ph['A'], ph['B']]:
+            ctx.ok(construct, f'`{meta_str.strip()}` is read back as the list {items}')
+        else:
+            ctx.bad(construct, 'list-format',
+                    f'{key}=[{ph["A"]}, {ph["B"]}] is written `{meta_str.strip()}` and read back as {items if items is not None else show(got, 80)}: '
+                    'parse -> serialise -> parse is not a fixed point for this key', ser.loc())
+
+
 RULES = [
     RuleDef('R1', 'frame tables mutually inverse', r1, 8),
     RuleDef('R2', 'shape vocabulary: class -> type -> token -> class; text written', r2, 17),
-    RuleDef('R3', 'token-level writer∘reader: slots, units, ellipse axes', r3, 9),
+    RuleDef('R3', 'token-level writer∘reader: slots, units (radunit deg/arcsec/arcmin), ellipse axes', r3, 17),
     RuleDef('R4', 'include / annotation prefixes on both sides', r4, 4),
     RuleDef('R5', 'global then inline metadata', r5, 2),
     RuleDef('R6', 'lengths need units', r6, 1),
     RuleDef('R7', 'serialisers do not mutate the regions', r7, 2),
     RuleDef('R8', 'CASA frame keywords; read-side box notations; metadata key agreement', r8, 5),
+    RuleDef('R10', 'list-valued metadata keys are written in the bracket form the reader splits', r10, 3),
     RuleDef('R9', 'label and text values: written quoting is what the line/metadata regexes lex; bound to the region', r9, 4),
 ]
